@@ -219,6 +219,11 @@ C09_Reissue == At("send") /\ Len(p.wire) > 0 /\ p.wire[Len(p.wire)].out = "inuse
                  /\ E.ttl = p.wire[Len(p.wire)].ttl
 C09_NoPanic == At("end") => ~E.panic /\ ~E.aborted
 
+\* C07 (full stack): exhausting the round's sequence budget by TCP port collisions ends the run with
+\* a capacity error, not with a panic / out-of-bounds access
+C07_Storm == At("end") /\ Cfg.storm /\ Len(E.fired) > 0 => E.result = "err:capacity" /\ ~E.panic /\ E.snap_err
+C07_StormSeq == At("send") => E.seq < 65535 /\ (Len(p.wire) > 0 => E.seq = p.wire[Len(p.wire)].seq + 1)
+
 (***************************************************************************)
 (* C10  hop table                                                          *)
 (***************************************************************************)
